@@ -18,7 +18,7 @@ open W2c2Verif W2c2Verif.WasiPath W2c2Verif.Dir W2c2Verif.WasiReaddir
 theorem gen_assumptions_readdir :
     Gen.WasiPath.direntSize = 24 ∧
     Gen.WasiPath.direntStores = [("next", 0, 8), ("inode", 8, 8), ("nameLength", 16, 4), ("fileType", 20, 1)] ∧
-    Gen.WasiPath.dirCookieStart = 0 ∧ Gen.WasiPath.readdirCallsRewind = true ∧
+    Gen.WasiPath.dirCookieStart = 0 ∧ Gen.WasiPath.readdirCallsRewind = true ∧ Gen.WasiPath.readdirResetsErrno = true ∧
     Gen.WasiPath.fileTypeTests = [("S_ISCHR", 2), ("S_ISDIR", 3), ("S_ISREG", 4), ("S_ISLNK", 7), ("S_ISBLK", 1)] ∧
     Gen.WasiPath.fileTypeUnknown = 0 := by
   decide
@@ -54,7 +54,7 @@ theorem readdir_call (pm : Nat) (d : Dir) (path : Bytes) (hd : DirOK pm path d) 
     (mem : Mem) (bufPtr bufLen usedPtr : Nat) (hp : p ≤ d.entries.length)
     (hl : Layout mem.length bufPtr bufLen usedPtr)
     (hpos : positionStream pm d path st mem cookie = .val (.inr (.at p))) :
-    ∃ mem' i', fdReaddir pm d path st mem bufPtr bufLen cookie usedPtr
+    ∃ mem' i', fdReaddir pm d path none st mem bufPtr bufLen cookie usedPtr
         = .val (.done ⟨Gen.WasiPath.errnoSuccess, some (.at i'), mem'⟩) ∧
       mem'.length = mem.length ∧
       clientView mem' bufPtr bufLen usedPtr =
@@ -62,6 +62,35 @@ theorem readdir_call (pm : Nat) (d : Dir) (path : Bytes) (hd : DirOK pm path d) 
          recsFrom d p ((d.entries.drop p).take (emitCount bufLen (d.entries.drop p) 0))) := by
   rw [fdReaddir_positioned pm d path st mem bufPtr bufLen cookie usedPtr _ hpos]
   exact readFrom_at pm d path hd p hp mem bufPtr bufLen usedPtr hl
+
+theorem rdLoop_ignores_stale_errno (pm : Nat) (d : Dir) (path : Bytes) (stale : Option String) (bufPtr bufLen : Nat) :
+    ∀ (rest : List Entry) (i used : Nat) (mem : Mem),
+      rdLoop pm d path stale bufPtr bufLen rest i used mem = rdLoop pm d path none bufPtr bufLen rest i used mem := by
+  intro rest
+  induction rest with
+  | nil => intro i used mem; unfold rdLoop; simp [Gen.WasiPath.readdirResetsErrno]
+  | cons e rest ih =>
+    intro i used mem
+    unfold rdLoop
+    simp only [ih]
+
+/-- **readdir_end_is_success_whatever_errno_was.**  Whatever value `errno` has when fd_readdir is entered
+    (any earlier failed host call of the process leaves one behind — `stale`), the call behaves exactly as
+    with `errno = 0`: in particular reaching the end of the directory is SUCCESS with the entries delivered
+    so far, never the stale error.  (`errno = 0;` is the statement directly before `readdir()`, which
+    reports end-of-directory by NULL without touching errno.)  All other theorems of this file are stated
+    for `stale = none` and hold for every `stale` by this one. -/
+theorem readdir_end_is_success_whatever_errno_was (pm : Nat) (d : Dir) (path : Bytes) (stale : Option String)
+    (st : Option Pos) (mem : Mem) (bufPtr bufLen cookie usedPtr : Nat) :
+    fdReaddir pm d path stale st mem bufPtr bufLen cookie usedPtr
+      = fdReaddir pm d path none st mem bufPtr bufLen cookie usedPtr := by
+  unfold fdReaddir readFrom
+  simp only [rdLoop_ignores_stale_errno pm d path stale]
+
+/-- …e.g. an empty remainder with a stale ENOENT: success, bufferUsed = 0 -/
+example : fdReaddir 64 ⟨[], fun i => i⟩ [47] (some "ENOENT") none (List.replicate 40 0xAA) 8 32 0 0
+    = fdReaddir 64 ⟨[], fun i => i⟩ [47] none none (List.replicate 40 0xAA) 8 32 0 0 :=
+  readdir_end_is_success_whatever_errno_was _ _ _ _ _ _ _ _ _ _
 
 /-- **readdir_exactly_once.**  For every directory (any number of entries, any names), every
     buffer that can hold one entry of that directory (`24 + name length ≤ bufLen` for every
@@ -145,7 +174,7 @@ example : client 4096 exampleDir [47, 116] 8 56 0 4 0 none (List.replicate 64 0)
     one `DT_UNKNOWN` entry with a 6-byte name.  (No file system in this sandbox returns
     DT_UNKNOWN, so this cannot be replayed on the real code.) -/
 theorem readdir_lstat_overflow_counterexample :
-    fdReaddir 16 ⟨[⟨[97, 98, 99, 100, 101, 102], 5, 0, some 4⟩], fun i => i⟩ (List.replicate 10 47) none
+    fdReaddir 16 ⟨[⟨[97, 98, 99, 100, 101, 102], 5, 0, some 4⟩], fun i => i⟩ (List.replicate 10 47) none none
       (List.replicate 64 0) 8 56 0 0 = .ub .bufferOverflow := by
   decide
 
